@@ -10,6 +10,7 @@ import (
 	"encoding/base64"
 	"errors"
 	"fmt"
+	"iter"
 	"math"
 	"slices"
 	"strings"
@@ -53,6 +54,28 @@ func c17Kinds() []c17Kind {
 	return ks
 }
 
+// c17Ranges uses a client iterator the ways a caller may: the same iter.Seq2 ranged twice, and a
+// second iterator made from the same params value.  Each must yield the full sequence.
+func c17Ranges[T any](mk func() iter.Seq2[*T, error], id func(*T) string) ([]string, error) {
+	var first []string
+	seq := mk()
+	for round, sq := range []iter.Seq2[*T, error]{seq, seq, mk()} {
+		var ids []string
+		for t, err := range sq {
+			if err != nil {
+				return ids, err
+			}
+			ids = append(ids, id(t))
+		}
+		if round == 0 {
+			first = ids
+		} else if !slices.Equal(ids, first) {
+			return ids, fmt.Errorf("%s yielded %v, the first ranging yielded %v", []string{"", "ranging the same iterator again", "a second iterator made from the same params"}[round], ids, first)
+		}
+	}
+	return first, nil
+}
+
 func c17KindsRaw() []c17Kind {
 	return []c17Kind{
 		{
@@ -75,14 +98,8 @@ func c17KindsRaw() []c17Kind {
 				return ids, r.NextCursor, nil
 			},
 			iter: func(ctx context.Context, cs *ClientSession) ([]string, error) {
-				var ids []string
-				for t, err := range cs.Tools(ctx, nil) {
-					if err != nil {
-						return ids, err
-					}
-					ids = append(ids, t.Name)
-				}
-				return ids, nil
+				params := &ListToolsParams{}
+				return c17Ranges(func() iter.Seq2[*Tool, error] { return cs.Tools(ctx, params) }, func(t *Tool) string { return t.Name })
 			},
 		},
 		{
@@ -105,14 +122,8 @@ func c17KindsRaw() []c17Kind {
 				return ids, r.NextCursor, nil
 			},
 			iter: func(ctx context.Context, cs *ClientSession) ([]string, error) {
-				var ids []string
-				for t, err := range cs.Prompts(ctx, nil) {
-					if err != nil {
-						return ids, err
-					}
-					ids = append(ids, t.Name)
-				}
-				return ids, nil
+				params := &ListPromptsParams{}
+				return c17Ranges(func() iter.Seq2[*Prompt, error] { return cs.Prompts(ctx, params) }, func(t *Prompt) string { return t.Name })
 			},
 		},
 		{
@@ -135,14 +146,8 @@ func c17KindsRaw() []c17Kind {
 				return ids, r.NextCursor, nil
 			},
 			iter: func(ctx context.Context, cs *ClientSession) ([]string, error) {
-				var ids []string
-				for t, err := range cs.Resources(ctx, nil) {
-					if err != nil {
-						return ids, err
-					}
-					ids = append(ids, t.URI)
-				}
-				return ids, nil
+				params := &ListResourcesParams{}
+				return c17Ranges(func() iter.Seq2[*Resource, error] { return cs.Resources(ctx, params) }, func(t *Resource) string { return t.URI })
 			},
 		},
 		{
@@ -165,14 +170,8 @@ func c17KindsRaw() []c17Kind {
 				return ids, r.NextCursor, nil
 			},
 			iter: func(ctx context.Context, cs *ClientSession) ([]string, error) {
-				var ids []string
-				for t, err := range cs.ResourceTemplates(ctx, nil) {
-					if err != nil {
-						return ids, err
-					}
-					ids = append(ids, t.URITemplate)
-				}
-				return ids, nil
+				params := &ListResourceTemplatesParams{}
+				return c17Ranges(func() iter.Seq2[*ResourceTemplate, error] { return cs.ResourceTemplates(ctx, params) }, func(t *ResourceTemplate) string { return t.URITemplate })
 			},
 		},
 	}
